@@ -1,4 +1,5 @@
 import TsVerif.C08.Props
+import TsVerif.C08.Persistence
 #print axioms TsVerif.C08.rc_invariant_copy
 #print axioms TsVerif.C08.rc_invariant_edit
 #print axioms TsVerif.C08.writes_exclusive
@@ -19,3 +20,7 @@ import TsVerif.C08.Props
 #print axioms TsVerif.C08.heap_empty_after_last_delete
 #print axioms TsVerif.C08.accesses_commute
 #print axioms TsVerif.C08.interleaving_eq_sequential
+#print axioms TsVerif.C08.reachable_live
+#print axioms TsVerif.C08.make_mut_never_mutates_shared
+#print axioms TsVerif.C08.observation_stable
+#print axioms TsVerif.C08.persistence
